@@ -257,8 +257,20 @@ class SymFloat(float):
 
 
 def _mk_symfloat_ops():
+    import operator as _op
+
+    refl = {"__add__": _op.add, "__radd__": lambda a, b: b + a, "__sub__": _op.sub, "__rsub__": lambda a, b: b - a,
+            "__mul__": _op.mul, "__rmul__": lambda a, b: b * a, "__truediv__": _op.truediv, "__rtruediv__": lambda a, b: b / a,
+            "__lt__": _op.lt, "__le__": _op.le, "__gt__": _op.gt, "__ge__": _op.ge, "__eq__": _op.eq, "__ne__": _op.ne,
+            "__pow__": _op.pow}
+
     def fwd(name):
         def op(self, *args):
+            if args and isinstance(args[0], _np.ndarray) and args[0].ndim and name in refl:
+                # never let numpy coerce the carrier float: operate as a 0-d object array
+                me = _np.empty((), dtype=object)
+                me[()] = self.node
+                return refl[name](me, args[0])
             return getattr(self.node, name)(*args)
 
         return op
@@ -269,7 +281,7 @@ def _mk_symfloat_ops():
     ).split():
         setattr(SymFloat, name, fwd(name))
     SymFloat.__hash__ = object.__hash__
-    SymFloat.__array_priority__ = 0.0
+    SymFloat.__array_ufunc__ = None  # ndarray binary operators defer to the reflected methods above
 
 
 _mk_symfloat_ops()
@@ -558,6 +570,12 @@ class SymArray(_np.ndarray):
     def dtype(self):
         return _np.dtype(float)
 
+    def __array_wrap__(self, arr, context=None, return_scalar=False):
+        # reductions to 0-d give the element itself, as for a plain object array
+        if arr.ndim == 0:
+            return arr[()]
+        return arr.view(SymArray) if _DT.__get__(arr) == object else arr
+
     def astype(self, dtype, *a, **k):
         if dtype in (float, _np.float64, "float", "float64") or _np.dtype(dtype) == _np.dtype(float):
             return self.copy()
@@ -670,6 +688,11 @@ class SymNumpy(types.ModuleType):
         return r if r is not None else _np.empty(shape, dtype=dtype, **kw)
 
     def full(self, shape, fill_value, dtype=None, **kw):
+        if isinstance(fill_value, _np.ndarray) and fill_value.ndim and (is_symbolic(fill_value) or _is_float_dtype(dtype)):
+            src = fill_value if _raw_dtype(fill_value) == object else to_sym_array(fill_value)
+            arr = _np.empty(shape, dtype=object)
+            arr[...] = _np.asarray(src, dtype=object)
+            return arr.view(SymArray)
         if is_symbolic(fill_value) or (_is_float_dtype(dtype) and not isinstance(fill_value, (int, _np.integer, bool)) ):
             arr = _np.empty(shape, dtype=object)
             arr.fill(lift(fill_value))
